@@ -280,22 +280,39 @@ def levels_for(spec, index):
     return list(spec.get("levels") or ["0"])
 
 
-def compile_subset(api, m, arch, funcs):
+class Watchdog(BaseException):
+    """Raised by SIGALRM inside a compilation that exceeds the per-call budget
+    (never a verdict: the case is discarded and counted)."""
+
+
+def _on_alarm(signum, frame):
+    raise Watchdog("compilation exceeded the watchdog budget")
+
+
+def compile_subset(api, m, arch, funcs, budget=90):
     """ir_to_object on the module restricted to ``funcs`` (a view: the list of
     functions is swapped for the call)."""
+    import signal
+
     allf = list(m._functions)
     allx = list(m.externals)
     m._functions[:] = funcs
     # functions left out stay visible as symbols (their address may be taken / they may be called)
     m.externals[:] = allx + [f for f in allf if f not in funcs]
+    old_handler = signal.signal(signal.SIGALRM, _on_alarm)
+    signal.setitimer(signal.ITIMER_REAL, budget)
     try:
         api.ir_to_object([m], arch)
         return None
     except Avoided as e:
         return e
+    except Watchdog as e:
+        return Avoided("watchdog-timeout")
     except Exception as e:  # the monitored event
         return e
     finally:
+        signal.setitimer(signal.ITIMER_REAL, 0)
+        signal.signal(signal.SIGALRM, old_handler)
         m._functions[:] = allf
         m.externals[:] = allx
 
